@@ -13,6 +13,11 @@ for a pool "its group's shutdown has called `Shutdown()` on it" (a stopped pool 
 only go down).  The steps of a shutdown are separate operations (`flag`, `stop`) that interleave freely with
 `inc` / `dec` / `newPool` / `newGroup` — and `shutdown g` is one complete, uninterrupted `Group.Shutdown()` call.
 
+`restart q` (round 6): nothing keeps a user from calling `Start()` on a pool that a group shutdown has stopped; the pool
+runs again (its group's flag stays set, so a later `Group.Shutdown` of that group returns at once and does not stop it
+again).  The subscriptions are untouched, so the counter tree stays exact (`C16_group_shutdown_wait` quantifies over
+scripts with restarts); the "never reset" / "only drains" theorems hold for scripts that do not restart that pool.
+
 Corners of the code that the model keeps: a group whose flag is already set returns at once *without* visiting its
 children (so a pool created in a group after that group's shutdown keeps running, also through a later shutdown of
 a parent); `CreatePool` / `CreateGroup` on a flagged group work as on any other.
@@ -33,7 +38,13 @@ inductive SOp
   | flag (g : Nat)      -- `Group.shutdown`: `isShutdown.Swap(true)`
   | stop (q : Nat)      -- `pool.Shutdown()` inside its group's `shutdown` loop
   | shutdown (g : Nat)  -- a whole `Group.Shutdown()` call, uninterrupted
+  | restart (q : Nat)   -- `pool.Start()` by the user on a pool that a group shutdown has stopped: it accepts tasks again
 deriving DecidableEq, Repr
+
+/-- The operation restarts pool `j`. -/
+def SOp.restarts (j : Nat) : SOp → Bool
+  | .restart q => q == j
+  | _ => false
 
 /-- Enabledness.  `flag g`: any group (a direct `Group.Shutdown()` whose wait has passed — the counter may have moved
 again since —, or the recursion from the parent).  `stop q`: only from the loop of its flagged group.
@@ -43,6 +54,7 @@ def SOp.ok (s : GS) : SOp → Bool
   | .flag g => isGroup s.tree g
   | .stop q => isPoolAt s.tree q && (match parentOf s.tree q with | some g => isShut s g | none => false)
   | .shutdown g => isGroup s.tree g && val s.tree g == 0
+  | .restart q => isPoolAt s.tree q && isShut s q
 
 /-- One node of the pass of `Group.shutdown` in index order (a parent's index is below its children's).
 `st.1` = the groups whose `shutdown()` body runs in this call, `st.2` = the flags. -/
@@ -70,6 +82,7 @@ def stepS (s : GS) : SOp → GS
   | .flag g => { s with shut := s.shut.set g true }
   | .stop q => { s with shut := s.shut.set q true }
   | .shutdown g => shutdownAll s g
+  | .restart q => { s with shut := s.shut.set q false }   -- the group's own flag stays set: no later Group.Shutdown stops q
 
 def runS (s : GS) : List SOp → GS
   | [] => s
